@@ -1038,3 +1038,32 @@ def element_visits(f, suffix):
             lam = next((x for x in walk(l['c'][2]) if x.get('k') == 'Lambda'), None)
             if lam is not None and lam.get('params'):
                 yield lam['params'][0].get('d'), lam, l
+
+
+def unsorted_uniques(f):
+    """Calls of std::unique over a range that was not sorted (std::sort / std::stable_sort over the same container) on every path before."""
+    out = []
+    cfg = f.cfg()
+    for c in f.walk():
+        if c.get('k') == 'Call' and c.get('callee') == 'std::unique' and c.get('c'):
+            rng = render(c['c'][0])
+            sorts = [s for s in f.walk() if s.get('k') == 'Call' and s.get('callee') in ('std::sort', 'std::stable_sort') and s.get('c') and render(s['c'][0]) == rng]
+            if not any(cfg is not None and cfg.node_dominates(s, c) for s in sorts):
+                out.append(c)
+    return out
+
+
+def rule_unique_sorted(F, rep, rid, pred, where_txt):
+    from facts import AnalysisBroken, fixture_funcs
+    rep.rule(rid, 'std::unique only removes ADJACENT duplicates: in %s every call of it is preceded by a sort of the same range (otherwise an element that recurs later in the list - an import source shared by non-adjacent entities - is kept twice)' % where_txt)
+    fx = fixture_funcs('uniq')
+    if len(unsorted_uniques(fx['fixtureUniqueBad'])) != 1 or unsorted_uniques(fx['fixtureUniqueGood']):
+        raise AnalysisBroken('%s: the detector does not separate the two fixture functions (sa/fixtures/src/uniq.cpp)' % rid)
+    n = 0
+    for g in F.funcs.values():
+        if not pred(g):
+            continue
+        n += 1
+        for c in unsorted_uniques(g):
+            rep.fail(rid, '%s|%s' % (g.short.split('::')[-1], render(c)[:50]), g.where(c), '%s removes duplicates with `%s` from a range that is not sorted' % (g.short, render(c)[:60]))
+    rep.ok(rid, 'scan', None, 'no std::unique over an unsorted range in %d functions of %s (fixture: 1 of 2 functions flagged, as expected)' % (n, where_txt))
